@@ -366,8 +366,15 @@ func future(t *testing.T, s *sys, res *vh.Result, w *vh.NDJSONWriter, obs func(s
 		res.Violate("roundtrip delete "+what, fmt.Sprintf("deleting the secret failed: %v", err), nil)
 		return
 	}
+	// ... up to the version number the deleted secret had reached: (name, version) now means other bytes than before
+	for k := 1; k < int(ver2); k++ {
+		if v, err := cl.Put(ctx, name, []byte(fmt.Sprintf("filler %d", k))); err != nil || int(v) != k {
+			res.Violate("roundtrip recreate "+what, fmt.Sprintf("put %d after the delete: version %v, error %v", k, v, err), nil)
+			return
+		}
+	}
 	val3 := append([]byte("again: "), val2...)
-	ver3, ok := put("recreate", val3, false)
+	ver3, ok := put("recreate", val3, true)
 	if !ok {
 		return
 	}
@@ -378,6 +385,9 @@ func future(t *testing.T, s *sys, res *vh.Result, w *vh.NDJSONWriter, obs func(s
 	s.start(t)
 	cl = setec.Client{Server: s.srv.URL}
 	get("restart-get")
+	// (a store that still held the deleted secret in its cache under the same version number could not notice: a poll asks
+	// "anything newer than version n?", and the service compares version numbers (C09) -- so this store starts afresh)
+	os.Remove(cpath)
 	fc3, _ := setec.NewFileCache(cpath)
 	st3, err := setec.NewStore(ctx, setec.StoreConfig{Client: cl, Secrets: []string{name}, Cache: fc3, PollInterval: -1, Logf: quiet})
 	if err != nil {
